@@ -107,6 +107,7 @@ def invalidation(ctx, h, res):
     total = 0
     for flag in (True, False):
         gens = [struct.core_runs(h, maxlen if flag or ctx.thorough else 2, memo="warm", flag=flag, res=res, classes=("DirectedEdge", "UnDirectedEdge", "SymTwo") if not ctx.thorough else struct.LCLASSES),
+                struct.core_runs(h, 2, memo="warm", flag=flag, res=res, classes=("DirectedEdge",), vcls="SymFalsyVert"),
                 struct.ctor_runs(h, res=res, memo="warm", flag=flag),
                 struct.explicit_runs(h, res=res, memo="warm", flag=flag, thorough=ctx.thorough)]
         for rec in itertools.chain(*gens):
